@@ -43,21 +43,39 @@ Definition is_mapped (a : desc) : bool := match a with DMap _ | DPrefixMap _ => 
    PrefixMap.post_setattr turn the KeyError / TypeError of map[value] into TraitError("Unmappable") — also when the
    trait stands alone, where only an unvalidated value (the Undefined bypass, F22) or a default that is not a key gets there *)
 Inductive post := NoPost | PostSet (x : pv) | PostRaise (e : exn).
+(* which handlers have a post_setattr: Map, PrefixMap, and a compound one of whose handlers has (TraitCompound.set_validate,
+   trait_handlers.py:660-662 and 690-692 — a NESTED compound contributes its own _post_setattr) *)
+Fixpoint has_post (d : desc) : bool :=
+  match d with
+  | DMap _ | DPrefixMap _ => true
+  | DCompound ds => existsb has_post ds
+  | _ => false
+  end.
+
+(* one handler's post_setattr on w: Some x = it set name_ to x; None = it has none, or raised TraitError("Unmappable").
+   TraitCompound._post_setattr (trait_handlers.py:728): the handlers that have a post_setattr are tried in turn;
+   Map.post_setattr / PrefixMap.post_setattr raise TraitError for a value that is not one of their keys (repaired F19),
+   which moves on to the next one; a nested compound's _post_setattr never raises; when none mapped:
+   setattr(object, name + "_", value) *)
+Fixpoint post_try (d : desc) (w : pv) {struct d} : option pv :=
+  match d with
+  | DMap _ | DPrefixMap _ => mapped_of d w
+  | DCompound ds =>
+      if existsb has_post ds then
+        Some ((fix go (l : list desc) : pv :=
+                 match l with
+                 | [] => w
+                 | a :: r => match post_try a w with Some x => x | None => go r end
+                 end) ds)
+      else None
+  | _ => None
+  end.
+
 Definition post_setattr (d : desc) (w : pv) : post :=
   match d with
   | DMap _ | DPrefixMap _ =>
       match mapped_of d w with Some x => PostSet x | None => PostRaise ETraitError end
-  | DCompound ds =>
-      (* TraitCompound._post_setattr (trait_handlers.py:728): the handlers that have a post_setattr are tried in turn;
-         Map.post_setattr / PrefixMap.post_setattr raise TraitError("Unmappable") for a value that is not one of their
-         keys (repaired F19), which moves on to the next one; when none maps: setattr(object, name + "_", value) *)
-      if existsb is_mapped ds then
-        PostSet ((fix go (l : list desc) : pv :=
-                    match l with
-                    | [] => w
-                    | a :: r => if is_mapped a then match mapped_of a w with Some x => x | None => go r end else go r
-                    end) ds)
-      else NoPost
+  | DCompound _ => match post_try d w with Some x => PostSet x | None => NoPost end
   | _ => NoPost
   end.
 
